@@ -15,8 +15,8 @@ ShapesOC == { <<D("ms_p2sh", 2, <<1, 2, 3>>, "c"), D("p2pkh", 1, <<1>>, "u")>> }
 CoinsQ == {"BTC", "BCH"}
 CoinsD == {"BTG"}
 HTd == {3}
-CoinsT == {"BTC", "BCH", "BTG"}
-HTt == {1, 2, 131}
+CoinsT == {"LTC", "BCH"}
+HTt == {129}
 ShapesW == { <<D("ms_p2sh", 2, <<1, 2, 3>>, "c"), D("p2pkh", 1, <<1>>, "u")>>,
              <<D("p2sh_p2wpkh", 1, <<2>>, "c"), D("ms_bare", 1, <<3, 2>>, "u")>> }
 \* "deep" configurations: plain key sets, scripts always supplied, one mechanism - but every
